@@ -627,12 +627,16 @@ def correspondence(ctx: Ctx, cases: list, impl_fn, coq_expr_fn, compare_fn, impo
     return bad
 
 
-def shrink(ctx: Ctx, case, candidates_fn, still_fails_batch, max_rounds: int = 8):
+def shrink(ctx: Ctx, case, candidates_fn, still_fails_batch, max_rounds: int = 8, budget_s: float = 40.0,
+           max_cands: int = 16):
     """Greedy batch shrinking: candidates_fn(case) -> list of smaller cases;
-    still_fails_batch(list of cases) -> list of bool."""
+    still_fails_batch(list of cases) -> list of bool.  Bounded by a time budget."""
     cur = case
+    t0 = time.time()
     for _ in range(max_rounds):
-        cands = candidates_fn(cur)
+        if time.time() - t0 > budget_s:
+            break
+        cands = candidates_fn(cur)[:max_cands]
         if not cands:
             break
         try:
@@ -648,3 +652,75 @@ def shrink(ctx: Ctx, case, candidates_fn, still_fails_batch, max_rounds: int = 8
             break
         cur = nxt
     return cur
+
+
+def run_standard(ctx: Ctx, cases: list, impl_fn, coq_expr_fn, compare_fn, imports: str, candidates_fn=None,
+                 sig_fn=None, call_fn=None, broken: str = "", tag: str = "main", shard: int = 60, max_reports: int = 3,
+                 prelude: str = "") -> list:
+    """Correspondence on all cases; shrink and report up to max_reports mismatches. Returns the mismatches."""
+    def failing(cs, tg):
+        bad_ = correspondence(ctx, cs, impl_fn, coq_expr_fn, compare_fn, imports, tag=tg, shard=shard, prelude=prelude)
+        keys = {json.dumps(jsonable(c), sort_keys=True) for c, _ in bad_}
+        return [json.dumps(jsonable(c), sort_keys=True) in keys for c in cs], bad_
+
+    _, bad = failing(cases, tag)
+    seen_sigs = []
+    for case, mm in bad:
+        if len(seen_sigs) >= max_reports:
+            break
+        small = case
+        if candidates_fn is not None:
+            small = shrink(ctx, case, candidates_fn, lambda cs: failing(cs, tag + "-shrink")[0])
+            _, bad2 = failing([small], tag + "-final")
+            if bad2:
+                mm = bad2[0][1]
+            else:
+                small = case
+        sig = sig_fn(small, mm) if sig_fn else {"observable": str(mm.get("observable"))}
+        if sig in seen_sigs and len(seen_sigs) > 0:
+            continue
+        seen_sigs.append(sig)
+        ctx.violation(f"{mm.get('observable')}: implementation differs from the model/spec",
+                      {"case": small, "mismatch": mm, "call": call_fn(small, mm) if call_fn else str(mm.get("observable")),
+                       "broken": broken or "correspondence model vs /repo"}, sig)
+    return bad
+
+
+def first_diff(actual, expected, tol: float = TOL):
+    """Index and values of the first entry where a float array differs from exact expectations (nested lists)."""
+    import numpy as np
+    a = np.asarray(actual, dtype=float)
+    e = np.asarray(jsonable_floats(expected), dtype=float)
+    if a.shape != e.shape:
+        if a.size == 0 and e.size == 0:
+            return None
+        return {"shape_actual": list(a.shape), "shape_expected": list(e.shape)}
+    if a.size == 0:
+        return None
+    d = np.abs(a - e)
+    d = np.where(np.isnan(a), np.inf, d)
+    bad = d > tol * np.maximum(1.0, np.abs(e))
+    if not bad.any():
+        return None
+    idx = tuple(int(i) for i in np.argwhere(bad)[0])
+    return {"index": list(idx), "actual": float(a[idx]), "expected": float(e[idx])}
+
+
+def jsonable_floats(x):
+    if isinstance(x, Fraction):
+        return float(x)
+    if isinstance(x, (list, tuple)):
+        return [jsonable_floats(v) for v in x]
+    return x
+
+
+def unres(v):
+    """Model values of type res A print as `inr x` / `inl MKey`: -> ('ok', x) / ('err', tag)"""
+    if isinstance(v, tuple) and v and v[0] == "inr":
+        return ("ok", v[1])
+    if isinstance(v, tuple) and v and v[0] == "inl":
+        t = v[1]
+        name = t[1] if isinstance(t, tuple) else str(t)
+        return ("err", {"MKey": "KeyError", "MValue": "ValueError", "MNotImpl": "NotImplementedError",
+                        "MAttr": "AttributeError"}.get(name, name))
+    raise ValueError(f"not a res value: {v!r}")
